@@ -7,7 +7,7 @@ checks' quick tier against it and record whether a NEW violation key appeared.
 import json, os, shutil, subprocess, sys, tempfile, time
 HERE = os.path.dirname(os.path.dirname(os.path.abspath(__file__)))
 sys.path.insert(0, HERE)
-from mutants.specs import M
+from mutants.specs import M, BENIGN
 
 def main():
     only = sys.argv[sys.argv.index("--only") + 1] if "--only" in sys.argv else None
@@ -47,7 +47,10 @@ def main():
     finally:
         shutil.rmtree(work, ignore_errors=True)
     missed = [k for k, v in results.items() if v.get("status") == "ok" and not any(c["verdict"] in ("caught", "inconclusive") for c in v["checks"].values())]
-    print("mutants:", len(results), "not caught by any named check:", missed)
+    for k in missed:
+        if k in BENIGN: results[k]["benign"] = BENIGN[k]
+    json.dump(results, open(resf, "w"), indent=1, sort_keys=True)
+    print("mutants:", len(results), "benign (no property broken):", sorted(k for k in missed if k in BENIGN), "NOT CAUGHT:", [k for k in missed if k not in BENIGN])
 
 if __name__ == "__main__":
     main()
